@@ -133,16 +133,16 @@ theorem index_cells (t : Text) (h : Canon t) (i : Int) :
 /-- `text.fixed_len(n)`: for `n ≥ 0` the first `n` cells, padded with default-coloured spaces
 (`s[:n].ljust(n)`) -/
 theorem fixedLen_cells (t : Text) (h : Canon t) (n : Nat) :
-    (t.fixedLen n).cells = t.cells.take n ++ plainCells (spaces (n - t.cells.length)) := by
-  rw [CHText.fixedLen_cells t h.2, pyFixedLen_nat]
+    (t.fixedLen n).cells = t.cells.take n ++ List.replicate (n - t.cells.length) (' ', 0) := by
+  rw [CHText.fixedLen_cells t h.2, pyFixedLen_nat, spaces_eq]; simp [plainCells]
 
 /-- the chunk versions (`Chunk.__getitem__`, `Chunk.fixed_len`) -/
 theorem chunk_ops_cells (c : Chunk) (i : Int) (j k : Option Int) (n : Nat) :
     (c.getIndex i).map Chunk.cells = (pyIndex c.cells i).map (fun x => [x]) ∧
     (c.getSlice j k).cells = pySlice c.cells j k ∧
-    (c.fixedLen n).cells = c.cells.take n ++ plainCells (spaces (n - c.cells.length)) := by
+    (c.fixedLen n).cells = c.cells.take n ++ List.replicate (n - c.cells.length) (' ', 0) := by
   refine ⟨chunk_getIndex_spec c i, chunk_getSlice_cells c j k, ?_⟩
-  rw [chunk_fixedLen_cells, pyFixedLen_nat]
+  rw [chunk_fixedLen_cells, pyFixedLen_nat, spaces_eq]; simp [plainCells]
 
 /-- `format(text, spec)` for every spec `[[fill]align][width][s]` (width without leading zero): the
 cells of the text padded as Python pads a `str`, pads in the default colour -/
@@ -156,6 +156,18 @@ theorem format_plain (t : Text) (h : Canon t) (sp : FmtSpec) (hv : sp.Valid) :
       .ok (pyFormatStr (t.cells.map (·.1)) sp) := by
   rw [format_cells t h sp hv]
   simp only [Except.map, pyFormatStr, pyPad_map]
+
+/-- the same with the width given as a number: `format(text, f"{fill}{align}{w}")` pads to `w`
+(`Nat.toDigits 10 w` is the decimal numeral of `w`) -/
+theorem format_width (t : Text) (h : Canon t) (fa : Option (Option Char × Align)) (w : Nat) (hw : 0 < w) (s : Bool) :
+    let sp : FmtSpec := ⟨fa, Nat.toDigits 10 w, s⟩
+    sp.Valid ∧ t.format sp.render = .ok (pyPad (sp.fill, 0) sp.align w t.cells) := by
+  intro sp
+  obtain ⟨h1, h2, h3⟩ := toDigits_width w hw
+  have hv : sp.Valid := ⟨h1, h2⟩
+  refine ⟨hv, ?_⟩
+  rw [format_cells t h sp hv]
+  simp only [FmtSpec.widthVal, sp, h3]
 
 /-! ## equality -/
 
@@ -203,24 +215,48 @@ theorem reachable_canon (e : Expr) (τ : Ty) (h : e.ty = some τ) (t : Text) (he
   · rw [he] at h1; cases h1; exact ⟨hc, hc.2⟩
   · rw [he] at h1; cases h1
 
-/-- `format` and `==` of reachable values: the two remaining observations of an operation tree -/
+/-- `a == b` with Python's dispatch (`__eq__`, reflected `__eq__`), for every pair of operands of
+the domain whose texts satisfy the invariant: `True` iff both show the same characters in the same
+colours -/
+theorem eq_parts (x y : Part) (hx : x.Canon) (hy : y.Canon) (hd : EqDomain x y) :
+    ∃ b, pyEq x y = .ok b ∧ (b = true ↔ x.cells = y.cells) := by
+  cases x <;> cases y <;> simp only [EqDomain] at hd <;> simp only [pyEq, Part.cells]
+  · next s c => exact ⟨_, rfl, by rw [chunk_eqStr_iff c s hd]; exact eq_comm⟩
+  · next s t => exact ⟨_, rfl, by rw [eqStr_iff t hy s]; exact eq_comm⟩
+  · next c s => exact ⟨_, rfl, chunk_eqStr_iff c s hd⟩
+  · next c d => exact ⟨_, rfl, by rw [beq_iff_eq]; exact CHText.chunk_eq_iff c d hd⟩
+  · next c t => exact ⟨_, rfl, by rw [eqChunk_iff t hy c]; exact eq_comm⟩
+  · next t s => exact ⟨_, rfl, eqStr_iff t hx s⟩
+  · next t c => exact ⟨_, rfl, eqChunk_iff t hx c⟩
+  · next a b => exact ⟨_, rfl, eqText_iff a b hx hy⟩
+
+/-- `format(x, spec)` and `a == b` observed on the values of operation trees: the answers are the
+answers for the reference cells -/
 theorem eval_observe (a b : Expr) (τa τb : Ty) (ha : a.ty = some τa) (hb : b.ty = some τb)
-    (ta tb : Text) (hea : eval a = .ok (.text ta)) (heb : eval b = .ok (.text tb))
-    (ca cb : Cells) (hra : ref a = .ok ca) (hrb : ref b = .ok cb) (sp : FmtSpec) (hv : sp.Valid) :
-    (pyEq (.text ta) (.text tb) = .ok true ↔ ca = cb) ∧
-    pyFormat (.text ta) sp.render = .ok (pyPad (sp.fill, 0) sp.align sp.widthVal ca) := by
+    (x y : Part) (hea : eval a = .ok x) (heb : eval b = .ok y)
+    (ca cb : Cells) (hra : ref a = .ok ca) (hrb : ref b = .ok cb) :
+    (EqDomain x y → ∃ r, pyEq x y = .ok r ∧ (r = true ↔ ca = cb)) ∧
+    (∀ sp : FmtSpec, sp.Valid → (τa = .text ∨ τa = .chunk) →
+      pyFormat x sp.render = .ok (pyPad (sp.fill, 0) sp.align sp.widthVal ca)) := by
   have h1 := eval_sim a τa ha
   have h2 := eval_sim b τb hb
   rw [hea, hra] at h1
   rw [heb, hrb] at h2
-  obtain ⟨_, hca, hcella⟩ := h1
-  obtain ⟨_, hcb, hcellb⟩ := h2
+  obtain ⟨htx, hcx, hcellx⟩ := h1
+  obtain ⟨_, hcy, hcelly⟩ := h2
   refine ⟨?_, ?_⟩
-  · simp only [pyEq, Except.ok.injEq]
-    rw [eqText_iff ta tb hca hcb]
-    rw [← hcella, ← hcellb]; rfl
-  · simp only [pyFormat]
-    rw [CHText.format_cells ta hca.2 sp hv, ← hcella]; rfl
+  · intro hd
+    rw [← hcellx, ← hcelly]
+    exact eq_parts x y hcx hcy hd
+  · intro sp hv hτ
+    cases x with
+    | text t => simp only [pyFormat]; rw [CHText.format_cells t hcx.2 sp hv, ← hcellx]; rfl
+    | chunk c =>
+      simp only [pyFormat]
+      rw [CHText.format_cells _ (construct_canon _).2 sp hv, CHText.construct_cells, ← hcellx]
+      simp [Part.cellsList, Part.cells]
+    | str s => rw [← htx] at hτ; simp [Part.ty] at hτ
+    | list tp ps => rw [← htx] at hτ; simp [Part.ty] at hτ
 
 /-! ## non-vacuity: concrete trees evaluated by the kernel -/
 
